@@ -443,6 +443,7 @@ fn map_obs<Ty: EdgeType, S: BuildHasher>(g: &GraphMap<i32, i32, Ty, S>, _rng: &m
             json!({"a": a, "nbr": g.neighbors(a).collect::<Vec<_>>(),
                    "nin": g.neighbors_directed(a, Incoming).collect::<Vec<_>>(),
                    "eo": g.edges_directed(a, Outgoing).map(|(s, t, w)| json!([s, t, *w])).collect::<Vec<_>>(),
+                   "eo2": g.edges(a).map(|(s, t, w)| json!([s, t, *w])).collect::<Vec<_>>(),
                    "ei": g.edges_directed(a, Incoming).map(|(s, t, w)| json!([s, t, *w])).collect::<Vec<_>>(),
                    "deg": g.neighbors_directed(a, Outgoing).count(), "nw": a})
         }
